@@ -181,7 +181,10 @@ def build(backend):
 
 
 def includes_of(pkg, backend):
+    "the #include lines of the translation unit: the source file and, on ATLAS, the generated header it includes first"
     src = pkg.files["query.cxx" if backend == "atlas" else "Analyzer.cc"]
+    if backend == "atlas":
+        src = pkg.files.get("query.h", "") + "\n" + src
     return re.findall(r'#include\s+"([^"]+)"', src)
 
 
@@ -248,7 +251,7 @@ def post(outs, evs):
         inc = includes_of(o.pkg, c.backend) if o.pkg.files else None
         if inc is not None:
             # an inject_code block that itself lists the header under body_includes legitimately adds one more line of the same text
-            extra = 1 if "body_includes" in info["kind"] else 0
+            extra = (1 if "body_includes" in info["kind"] else 0) + (1 if "header_includes" in info["kind"] and c.backend == "atlas" else 0)
             for h in info["headers"]:
                 if not (1 <= inc.count(h) <= 1 + extra):
                     probs.append(f"header {h} included {inc.count(h)} times")
